@@ -102,7 +102,10 @@ pub fn generate(seed: u64, tier: &str, sink: &mut Sink) {
         };
         // framing
         let framing = rng.below(3);
-        let mut head = b"HTTP/1.1 200 OK\r\n".to_vec();
+        // (a content coding is taken off whatever the status: a 206 that carries a complete coded representation, an
+        // error page — seed C06-seed12: 206 handed out raw)
+        let status = *rng.pick(&[200u16, 200, 200, 206, 206, 201, 203, 404, 500, 226]);
+        let mut head = format!("HTTP/1.1 {} X\r\n", status).into_bytes();
         head.extend_from_slice(&header);
         let mut body = vec![];
         match framing {
@@ -211,7 +214,7 @@ pub fn generate(seed: u64, tier: &str, sink: &mut Sink) {
         let tag = format!("{}-{}", declared, damage);
         let o: Result<(), (String, String)> = (|| {
             match &out.head {
-                HeadOut::Ok(200) => {}
+                HeadOut::Ok(st) if *st == status => {}
                 // flate2's GzDecoder parses the gzip header eagerly: a stream cut inside it may fail send()
                 h if damage == "truncated" => {
                     return if matches!(h, HeadOut::Panic) { Err(("panic".into(), "panic".into())) } else { Ok(()) };
